@@ -10,6 +10,9 @@ QUICK = ['seq2', 'two_if', 'catch_act', 'msg_set', 'par_block', 'outs_act']
 def main(tier, seed):
     c = Check("C05", tier, seed)
     jobs, bounds = scripted_jobs("C05", "c05", QUICK, tier, seed, extra=dict(skip_running_acts=True, omit_outputs=True), error_scripts=False)
+    # back with a target that is not in the act's history: refused, and nothing changes
+    for n in (QUICK if tier == "quick" else scen.flow_names()):
+        jobs.append(("props.flow", "run_scenario", (n, dict(policy="fifo", k=1, kinds=["Back"], bad_to=True, oracles=("c05",), targets="acts", skip_running_acts=True, max_paths=300, seed=seed), "C05")))
     # last clause: concurrent identical actions (two model threads, one pre-emption, every lock operation of the first as switch point)
     race_scen = ["seq2", "catch_act"] if tier == "quick" else ["seq2", "catch_act", "two_if", "par_block", "outs_act", "nested"]
     for n in race_scen:
